@@ -23,6 +23,10 @@ use sha2::{Digest, Sha256};
 
 use crate::fingerprint::{self as fp, Full, GroupLevel, StateKey};
 
+#[path = "world_side.rs"]
+pub mod side;
+pub use side::SideOp;
+
 // ---------------------------------------------------------------------------------------------
 // clients
 // ---------------------------------------------------------------------------------------------
@@ -168,6 +172,9 @@ pub struct Client {
     /// proposals held pending, per state (a rollback restores the queue of that state)
     pub props_by_state: HashMap<StateKey, Vec<usize>>,
     pub own_pending: Option<usize>,
+    /// the own commit that was pending when the client left a state: a rollback to that state
+    /// restores the group with that commit pending again
+    pub pending_by_state: HashMap<StateKey, Option<usize>>,
     pub delivered: HashMap<usize, DeliveryRec>,
     pub immediate: Vec<usize>,
     pub restarts: Vec<usize>,
@@ -175,6 +182,8 @@ pub struct Client {
     pub rollbacks_seen: usize,
     /// commits this client applied, as (relay idx, delivery sequence number (0 for local merges), state before)
     pub applied: Vec<(usize, usize, Option<StateKey>)>,
+    /// plan step of each entry of `applied`
+    pub applied_steps: Vec<usize>,
     pub evicted_at: Option<usize>,
     /// relay index of the commit whose processing made the group inactive here
     pub evicted_by: Option<usize>,
@@ -354,6 +363,10 @@ pub enum Op {
         target: u16,
         ts: u8,
         apply: Apply,
+        /// number of further members named in the same call (0..=2), picked by rotations of
+        /// `target`; the order in which the keys are passed is the order picked
+        #[serde(default)]
+        extra: u8,
     },
     Leave {
         m: u16,
@@ -429,6 +442,8 @@ pub enum Op {
         sel: u16,
         mutation: HostileMut,
     },
+    /// traffic of / confusion with the second group
+    Side(SideOp),
 }
 
 /// one structure-aware mutation of a valid kind-445 event
@@ -485,6 +500,10 @@ pub struct Setup {
     /// delivery to a never-restarted twin opened on a copy of its database (C11)
     #[serde(default)]
     pub twin: bool,
+    /// second live group shared by some clients: 0 none; bits 0..6 select main-group clients,
+    /// bit 7 adds the last spare as a member of that group only (see world_side.rs)
+    #[serde(default)]
+    pub side: u8,
 }
 
 #[derive(Clone, Debug, PartialEq, Eq, Hash, Serialize, Deserialize)]
@@ -616,6 +635,7 @@ pub struct World {
     pub leak_sink: Option<Vec<String>>,
     /// the receiver's own pending commit (relay index) just before the current delivery
     pub own_pending_before_delivery: Option<usize>,
+    pub side: Option<side::SideGroup>,
 }
 
 pub fn relay_url(n: u8) -> RelayUrl {
@@ -711,12 +731,14 @@ impl World {
                 pending_props: vec![],
                 props_by_state: HashMap::new(),
                 own_pending: None,
+                pending_by_state: HashMap::new(),
                 delivered: HashMap::new(),
                 immediate: vec![],
                 restarts: vec![],
                 rollbacks: vec![],
                 rollbacks_seen: 0,
                 applied: vec![],
+                applied_steps: vec![],
                 evicted_at: None,
                 evicted_by: None,
                 key_packages: vec![],
@@ -789,6 +811,7 @@ impl World {
             twin_excused: 0,
             leak_sink: None,
             own_pending_before_delivery: None,
+            side: None,
         };
         // deliver the initial welcomes
         for (k, rumor) in res.welcome_rumors.iter().enumerate() {
@@ -826,12 +849,14 @@ impl World {
                 pending_props: vec![],
                 props_by_state: HashMap::new(),
                 own_pending: None,
+                pending_by_state: HashMap::new(),
                 delivered: HashMap::new(),
                 immediate: vec![],
                 restarts: vec![],
                 rollbacks: vec![],
                 rollbacks_seen: 0,
                 applied: vec![],
+                applied_steps: vec![],
                 evicted_at: None,
                 evicted_by: None,
                 key_packages: vec![],
@@ -849,6 +874,7 @@ impl World {
                 return Err(format!("client {i} not in the initial state after setup"));
             }
         }
+        w.setup_side()?;
         Ok(w)
     }
 
@@ -945,6 +971,11 @@ impl World {
         if key != c.cur {
             if let Some(old) = &c.cur {
                 c.props_by_state.insert(old.clone(), c.pending_props.clone());
+                c.pending_by_state.insert(old.clone(), c.own_pending);
+            }
+            if let Some(p) = key.as_ref().and_then(|k| c.pending_by_state.get(k).cloned()) {
+                // back in a state it had left (rollback): what was pending then is pending again
+                c.own_pending = p;
             }
             c.pending_props = key
                 .as_ref()
@@ -1097,6 +1128,8 @@ impl World {
                     self.clients[m].immediate.push(idx);
                     let _ = step;
                     self.clients[m].applied.push((idx, 0, before));
+                    let st = self.step;
+                    self.clients[m].applied_steps.push(st);
                     self.clients[m].own_pending = None;
                     self.count("apply:immediate");
                     self.note(format!("c{m} merge_pending_commit (immediate) of #{idx}"));
@@ -1415,6 +1448,7 @@ impl World {
                 target,
                 ts,
                 apply,
+                extra,
             } => {
                 let Some(m) = self.active_sel(*m) else {
                     return Ok(());
@@ -1430,16 +1464,40 @@ impl World {
                     return Ok(());
                 };
                 let t = candidates[k].clone();
-                let Ok(tpk) = nostr::PublicKey::from_hex(&t) else {
-                    return Ok(());
-                };
+                let mut targets = vec![t.clone()];
+                for j in 0..(*extra).min(2) {
+                    if let Some(k2) = pick(target.rotate_left(5 + 6 * j as u32), candidates.len()) {
+                        if !targets.contains(candidates[k2]) {
+                            targets.push(candidates[k2].clone());
+                        }
+                    }
+                }
+                let mut tpks = vec![];
+                for x in &targets {
+                    let Ok(pk) = nostr::PublicKey::from_hex(x) else {
+                        return Ok(());
+                    };
+                    tpks.push(pk);
+                }
+                if targets.len() > 1 {
+                    self.count("op:remove_members:several-in-one-call");
+                    let mut sorted = targets.clone();
+                    sorted.sort();
+                    if sorted != targets {
+                        self.count("op:remove_members:keys-not-in-ascending-order");
+                    }
+                }
                 let base = self.clients[m].cur.clone();
                 self.set_ts(*ts);
-                let r = on_mdk!(self.clients[m].mdk(), mm => mm.remove_members(&gid, &[tpk]));
+                let r = on_mdk!(self.clients[m].mdk(), mm => mm.remove_members(&gid, &tpks));
                 mdk_core::verif::set_wrapper_created_at(None);
                 match r {
                     Ok(res) => {
-                        let who = self.client_by_pk(&t).map(|i| format!("c{i}")).unwrap_or(t.clone());
+                        let who = targets
+                            .iter()
+                            .map(|t| self.client_by_pk(t).map(|i| format!("c{i}")).unwrap_or(t.clone()))
+                            .collect::<Vec<_>>()
+                            .join("+");
                         let idx = self.publish_commit(
                             m,
                             base,
@@ -1449,7 +1507,7 @@ impl World {
                             &[],
                         );
                         self.relay[idx].named = Named {
-                            removed: vec![t.clone()],
+                            removed: targets.clone(),
                             ..Named::default()
                         };
                         self.count("op:remove_members");
@@ -1553,6 +1611,8 @@ impl World {
                         self.clients[m].immediate.push(idx);
                         let _ = step;
                         self.clients[m].applied.push((idx, 0, before));
+                        let st = self.step;
+                        self.clients[m].applied_steps.push(st);
                         self.clients[m].own_pending = None;
                         self.count("apply:merge-later");
                     }
@@ -1640,6 +1700,9 @@ impl World {
                         self.deliver(v, idx, obs)?;
                     }
                 }
+            }
+            Op::Side(sop) => {
+                self.apply_side_op(sop, obs)?;
             }
         }
         Ok(())
@@ -1771,7 +1834,7 @@ impl World {
     pub fn rogue_msg(&mut self, m: usize, pubkey_sel: u8, id_sel: u8, sel: u16, kind: u8) {
         let gid = self.gid.clone();
         let own = self.clients[m].keys.public_key();
-        let claimed = match pubkey_sel % 3 {
+        let claimed = match pubkey_sel % 4 {
             0 => own,
             1 => {
                 let Some(t) = self.target_identity(m, sel, false) else { return };
@@ -1779,6 +1842,59 @@ impl World {
                     Ok(p) => p,
                     Err(_) => return,
                 }
+            }
+            3 => {
+                // an identity the sender's own (possibly stale) view does not list: somebody who
+                // joined after the epoch the sender is in, else any other client of the world
+                let mine = self.local_members(m);
+                let mut later: Vec<usize> = vec![];
+                for i in 0..self.clients.len() {
+                    if i == m || self.clients[i].mdk.is_none() || Some(i) == self.twin.map(|(_, t)| t) {
+                        continue;
+                    }
+                    let pk = self.clients[i].pk_hex();
+                    if mine.contains(&pk) {
+                        continue;
+                    }
+                    let known_elsewhere = (0..self.clients.len()).any(|j| j != m && self.clients[j].cur.is_some() && self.local_members(j).contains(&pk));
+                    if known_elsewhere {
+                        later.push(i);
+                    }
+                }
+                // ... and among those, whoever now sits at the sender's own leaf index in somebody
+                // else's tree (the sender was removed there and its leaf re-used)
+                let own_leaf = self.full(m).own_leaf;
+                let own_hex = self.clients[m].pk_hex();
+                let mut successors: Vec<usize> = vec![];
+                if let Some(leaf) = own_leaf {
+                    for j in 0..self.clients.len() {
+                        if j == m || self.clients[j].cur.is_none() {
+                            continue;
+                        }
+                        if let Ok(Some(l)) = self.level(j) {
+                            if let Some((_, id)) = l.members.iter().find(|(i, _)| *i == leaf) {
+                                if *id != own_hex {
+                                    if let Some(c) = self.client_by_pk(id) {
+                                        if !successors.contains(&c) {
+                                            successors.push(c);
+                                        }
+                                    }
+                                }
+                            }
+                        }
+                    }
+                }
+                let pool: Vec<usize> = if !successors.is_empty() {
+                    self.count("rogue:msg:claims-identity-of-the-member-that-took-over-its-leaf");
+                    successors
+                } else if later.is_empty() {
+                    (0..self.clients.len()).filter(|i| *i != m).collect()
+                } else {
+                    self.count("rogue:msg:claims-identity-of-a-later-joiner");
+                    later
+                };
+                let Some(k) = pick(sel, pool.len()) else { return };
+                self.clients[pool[k]].keys.public_key()
             }
             _ => Keys::generate().public_key(),
         };
@@ -1819,7 +1935,7 @@ impl World {
                 preset_id: rumor.id.map(|i| i.to_hex()),
                 collides_with,
             });
-            self.count(&format!("rogue:msg:pubkey{}:id{}", pubkey_sel % 3, id_sel % 4));
+            self.count(&format!("rogue:msg:pubkey{}:id{}", pubkey_sel % 4, id_sel % 4));
         }
     }
 
@@ -2135,19 +2251,17 @@ impl World {
     }
 
     pub fn catch_up(&mut self, m: usize, obs: &mut dyn Observer) -> Result<(), Failure> {
-        // publication order; an event made deliverable by an earlier one is picked up in the
-        // same sweep because publication order is causal order for honest plans
-        let mut guard = 0;
+        // publication (= relay) order: always the earliest event not yet handed over that may be
+        // handed over now, so an event made deliverable by an earlier one keeps its place
+        let mut guard = 0usize;
+        let bound = 4 * self.relay.len() + 8;
         loop {
             let cands = self.deliverable(m, false);
-            if cands.is_empty() || guard > 4 {
+            let Some(&idx) = cands.first() else { break };
+            if guard > bound {
                 break;
             }
-            for idx in cands {
-                if self.regime == Regime::Unrestricted || self.causally_ok(m, idx) {
-                    self.deliver(m, idx, obs)?;
-                }
-            }
+            self.deliver(m, idx, obs)?;
             guard += 1;
         }
         Ok(())
@@ -2164,7 +2278,8 @@ impl World {
         let ev = self.relay[idx].ev.clone();
         let before_key = self.clients[m].cur.clone();
         let redelivery = self.clients[m].delivered.contains_key(&idx);
-        let before_full = if obs.wants_before() {
+        let cross_group = self.side.is_some();
+        let before_full = if obs.wants_before() || cross_group {
             Some(self.full_all(m))
         } else {
             None
@@ -2270,6 +2385,8 @@ impl World {
         if matches!(outcome, Outcome::Commit) && self.clients[m].cur != before_key {
             let seq = self.delivery_seq;
             self.clients[m].applied.push((idx, seq, before_key.clone()));
+            let st = self.step;
+            self.clients[m].applied_steps.push(st);
         }
         if was_active && self.clients[m].cur.is_none() && self.group_state(m) == Some(GroupState::Inactive) {
             self.clients[m].evicted_by = Some(idx);
@@ -2328,7 +2445,22 @@ impl World {
                     if a != b {
                         // O8: the never-restarted twin can still resolve the race by rollback
                         let fired = |c: &Client| c.rollbacks.iter().any(|r| r.step == self.step && r.head == self.relay[idx].ev.id);
-                        let o8 = fired(&self.clients[t]) && !fired(&self.clients[k]) && !self.clients[k].restarts.is_empty();
+                        // O8 is about a commit applied *before* a restart (its snapshot is re-read
+                        // without the commit's timestamp); a commit applied after the last restart
+                        // has a live snapshot and must lose the race exactly as at the twin
+                        let base = self.relay[idx].base.clone();
+                        let displaced_step = {
+                            let c = &self.clients[k];
+                            c.applied.iter().zip(c.applied_steps.iter()).rev().find(|((_, _, b), _)| base.is_some() && *b == base).map(|(_, s)| *s)
+                        };
+                        let last_restart = self.clients[k].restarts.last().copied();
+                        let displaced_before_restart = match (displaced_step, last_restart) {
+                            (Some(a), Some(r)) => a <= r,
+                            // the contested commit cannot be identified: leave it to the signature below
+                            (None, Some(_)) => true,
+                            _ => false,
+                        };
+                        let o8 = fired(&self.clients[t]) && !fired(&self.clients[k]) && displaced_before_restart;
                         let detail = format!(
                             "after event #{idx} ({}) c{k} (restarted {} time(s), outcome {}) and its twin (never restarted, outcome {}) differ: {}",
                             self.relay[idx].what,
@@ -2357,9 +2489,48 @@ impl World {
                 format!("process_message panicked at client {m} on event #{idx}: {p}"),
             ));
         }
+        if cross_group {
+            self.cross_group_check(m, idx, before_full.as_ref().expect("computed"), &outcome)?;
+        }
         obs.after_delivery(self, m, idx, before_full.as_ref(), &outcome, redelivery)?;
         obs.after_call(self, m, "process_message")?;
         Ok(outcome)
+    }
+
+    /// with a second group in the world: an event of the main group never changes the other
+    /// group, and an event tagged for a group it does not belong to is refused without effect
+    fn cross_group_check(&mut self, m: usize, idx: usize, before: &Vec<Full>, outcome: &Outcome) -> Result<(), Failure> {
+        let after = self.full_all(m);
+        if let Some(s) = self.side.as_mut() {
+            s.checks += 1;
+        }
+        let ev = &self.relay[idx];
+        if before[1..] != after[1..] {
+            let d = before[1..].iter().zip(after[1..].iter()).map(|(b, a)| crate::oracles::diff_full(b, a)).collect::<Vec<_>>().join(" | ");
+            return Err(Failure::new(
+                "event-of-one-group-changed-another-group",
+                format!(
+                    "event #{idx} ({:?}, {}) handed to c{m} ({:?}, step {}, outcome {}) changed the side group there: {d}",
+                    ev.class, ev.what, self.clients[m].kind, self.step, outcome.tag()
+                ),
+            ));
+        }
+        if ev.other_group {
+            if !outcome.is_failure_class() {
+                return Err(Failure::new(
+                    "event-of-a-foreign-group-accepted",
+                    format!("event #{idx} ({}) handed to c{m} ({:?}, step {}): {}", ev.what, self.clients[m].kind, self.step, outcome.tag()),
+                ));
+            }
+            if *before != after {
+                let d = before.iter().zip(after.iter()).map(|(b, a)| crate::oracles::diff_full(b, a)).filter(|s| !s.is_empty()).collect::<Vec<_>>().join(" | ");
+                return Err(Failure::new(
+                    "event-of-a-foreign-group-had-an-effect",
+                    format!("event #{idx} ({}) handed to c{m} ({:?}, step {}) was refused ({}) yet the client changed: {d}", ev.what, self.clients[m].kind, self.step, outcome.tag()),
+                ));
+            }
+        }
+        Ok(())
     }
 
     // -----------------------------------------------------------------------------------------
